@@ -134,6 +134,9 @@ enum What {
     /// relation 0 main, 1 dedicated, 2 other, 3 no expectation, 4 main id above 32767 carried in the 16-bit field only
     Valve { players: GatherToggle, rules: GatherToggle, relation: u8, check: bool },
     Unreal2 { players: GatherToggle, rules: GatherToggle },
+    /// every per-game module of a Valve game whose definition expects an app id (the modules' documented defaults: check
+    /// on unless the definition says otherwise): a server of that game, and a server of another game
+    ModuleAppIds,
 }
 
 fn cases() -> Vec<(String, What)> {
@@ -151,7 +154,63 @@ fn cases() -> Vec<(String, What)> {
             v.push((format!("unreal2 players={p:?} rules={r:?}"), What::Unreal2 { players: p, rules: r }));
         }
     }
+    v.push(("valve game modules (default settings): a server of the game and a server of another game".to_string(), What::ModuleAppIds));
     v
+}
+
+fn run_module_app_ids(ctx: &mut Ctx, label: &str) {
+    use gamedig::protocols::types::Protocol;
+    use gamedig::protocols::valve::Engine;
+    use std::sync::Arc;
+    let mut modules: Vec<(String, Arc<dyn Fn() -> gamedig::GDResult<serde_json::Value>>)> = Vec::new();
+    for (name, fam, f) in WRAPPERS {
+        if *fam == "valve" {
+            let f = *f;
+            modules.push((name.to_string(), Arc::new(move || f(&IP4, Some(PORT)))));
+        }
+    }
+    modules.push(("theship".to_string(), Arc::new(|| gamedig::games::theship::query(&IP4, Some(PORT)).map(|r| to_json(&r)))));
+    let mut n = 0u64;
+    for (name, f) in modules {
+        let Some(game) = gamedig::GAMES.get(name.as_str()) else { continue };
+        // The Ship has a protocol entry of its own in the definitions table; its app id (2400) is the documented one
+        let (appid, dedicated, e) = match &game.protocol {
+            Protocol::Valve(Engine::Source(Some((appid, dedicated)))) => {
+                let Some(Family::Valve(e)) = family_of_game(game) else { continue };
+                (*appid, *dedicated, e)
+            }
+            _ if name == "theship" => (2400u32, None, super::c02::EngineCfg::Ship2400),
+            _ => continue,
+        };
+        let appid = &appid;
+        let foreign = if *appid == 440 || dedicated == Some(440) { 730 } else { 440 };
+        let check_on = game.request_settings.check_app_id.unwrap_or(true);
+        for (kind, id) in [("its own app id", *appid), ("another game's app id", foreign)] {
+            n += 1;
+            // another game's server does not send The Ship's extra fields
+            let e = if name == "theship" && id != *appid { super::c02::EngineCfg::App440 } else { e };
+            let server = valve_server_with_appid(e, id);
+            let f2 = f.clone();
+            let x = run_query(server(), Box::new(crate::vnet::Faithful), Chooser::new(&[]), move || f2());
+            ctx.account(&x, 0);
+            let bad_game = matches!(&x.outcome, Outcome::Err(k, _) if *k == GDErrorKind::BadGame);
+            let want_bad = check_on && id != *appid;
+            ctx.distinct_key(&(name.clone(), kind, x.outcome.class()));
+            let panicked = matches!(&x.outcome, Outcome::Panic { .. });
+            if bad_game != want_bad || panicked {
+                ctx.violation(
+                    format!("appid-check:module:{}", if want_bad { "foreign-app-accepted" } else { "rejected-without-cause" }),
+                    &[],
+                    format!("{label}: games::{name}::query against a server reporting {kind} ({id}); the definition expects {appid} and has app-id checking {}", if check_on { "on" } else { "off" }),
+                    x.outcome.describe_json(),
+                    if want_bad { "Err(BadGame)" } else { "anything but Err(BadGame)" },
+                    render_log(&x.log),
+                );
+            }
+        }
+    }
+    ctx.note("module_app_id_executions", n);
+    ctx.sample(serde_json::json!({"case": label, "executions": n}));
 }
 
 pub struct C11;
@@ -180,12 +239,16 @@ impl Prop for C11 {
          on/off = 7056; Unreal 2: 9 toggle pairs x {valid, silent, unsendable, garbage, string overrun, undefined kind, one byte}^2 = 441. Oracle: Skip => that request kind \
          never appears on the wire and the section is absent/empty; Try + failure => result equals the all-valid result with \
          that section absent; Enforce + failure => Err of the section's failure class (receive/send for silence, non-timeout for \
-         malformed); app id: check on and id not among the expected => Err(BadGame), otherwise the id never causes failure. \
+         malformed); app id: check on and id not among the expected => Err(BadGame), otherwise the id never causes failure; every per-game module of a Valve game with an expected app id (and The Ship's), called with its defaults against a server of that game and of another one. \
          distinct_nontrivial = distinct (outcome class, wire-log shape) pairs"
             .into()
     }
     fn run_case(&self, _tier: Tier, idx: usize, ctx: &mut Ctx) {
         let (label, what) = cases()[idx].clone();
+        if let What::ModuleAppIds = what {
+            run_module_app_ids(ctx, &label);
+            return;
+        }
         for so_p in SECS {
             for so_r in SECS {
                 let outcome = [Sec::Valid, so_p, so_r];
@@ -311,6 +374,7 @@ impl Prop for C11 {
                         }
                     }
                     }
+                    What::ModuleAppIds => unreachable!("handled above"),
                     What::Unreal2 { players, rules } => {
                         // path 0: the protocol's query function; 1: the definition-driven entry point with both toggles given;
                         // 2 (only where the toggles are the protocol's own defaults): the same with both left out
